@@ -341,6 +341,20 @@ def sample_tensor(L):
 
 
 @program
+def sample_tensor_joint(L):
+    # every subset of the inputs sampled jointly, including the layouts where the aligned logits are the term's own array
+    np.random.seed(3)
+    out = []
+    for t in (L.logp, L.t_ijk, L.t_ji):
+        names = list(t.inputs)
+        for m in range(1, 2 ** len(names)):
+            sv = frozenset(n for b, n in enumerate(names) if m >> b & 1)
+            out.append(t.sample(sv))
+            out.append(t.sample(sv, OrderedDict(particle=Bint[2])))
+    return tuple(out)
+
+
+@program
 def sample_gaussian(L):
     np.random.seed(1)
     return L.g1.sample(frozenset({"x", "y"})), L.g2.sample(frozenset({"x"}), OrderedDict(particle=Bint[3]))
